@@ -114,14 +114,24 @@ func NewParser(srcPath, dstPath string) (*Parser, error) {
 func importNames(file *ast.File, pkg *packages.Package) util.ImportNames {
 	imports := util.NewImportNames(file.Imports)
 	for _, spec := range file.Imports {
-		if spec.Name != nil {
+		if spec.Name != nil && spec.Name.Name != "_" {
 			continue
 		}
 		pkgPath, err := strconv.Unquote(spec.Path.Value)
 		if err != nil {
 			continue
 		}
-		if imp, ok := pkg.Imports[pkgPath]; ok && imp.Name != "" {
+		imp, ok := pkg.Imports[pkgPath]
+		if !ok || imp.Name == "" {
+			continue
+		}
+		if spec.Name == nil {
+			imports[pkgPath] = imp.Name
+			continue
+		}
+		// A blank import is there for the notations to refer to. They do so by the
+		// name of the package, unless another import goes by it already.
+		if other, taken := imports.LookupPath(imp.Name); !taken || other == pkgPath {
 			imports[pkgPath] = imp.Name
 		}
 	}
